@@ -90,6 +90,17 @@ func (_this *Context) UnstackBuilder() Builder {
 	return oldTop
 }
 
+// Remove a specific builder, which may no longer be at the top of the stack.
+func (_this *Context) UnstackThisBuilder(builder Builder) {
+	for i := len(_this.builderStack) - 1; i >= 0; i-- {
+		if _this.builderStack[i] == builder {
+			_this.builderStack = append(_this.builderStack[:i], _this.builderStack[i+1:]...)
+			break
+		}
+	}
+	_this.updateCurrentBuilder()
+}
+
 func (_this *Context) SwapBuilder(builder Builder) Builder {
 	oldTop := _this.CurrentBuilder
 	_this.builderStack = _this.builderStack[:len(_this.builderStack)-1]
